@@ -37,6 +37,7 @@ Inductive vcase :=
 | CQuery (v : ver) (ops : list Z)
 | CDiscover (client answer : list ver)
 | CTemplate (v : ver) (names : list string) (refused : option string)
+| CLocate (v : ver) (names : list string) (refused : option string)
 | CReported (v : ver) (held requested observed : list string)
 | CFieldWrite (cls : string) (v : ver) (set_tags emitted : list string) (raised : bool)
 | CFieldRead (cls : string) (v : ver) (tag : string) (accepted : bool)
@@ -74,6 +75,7 @@ Definition check_vcase (c : vcase) : bool :=
   | CQuery v ops => list_eqb Z.eqb (query_ops v) ops
   | CDiscover client answer => list_eqb ver_eqb (discover client) answer
   | CTemplate v names refused => opt_eqb String.eqb (template_gate v names) refused
+  | CLocate v names refused => opt_eqb String.eqb (locate_filter_gate v names) refused
   | CReported v held requested observed =>
       list_eqb String.eqb
         (reported v (fun n => str_mem n held) (match requested with [] => all_attr_names | _ => requested end))
